@@ -278,17 +278,26 @@ fn input_constants(subject: &str) -> std::collections::BTreeSet<u128> {
 
 /// Program with every in-window clock value replaced by a marker; Err if a clock-sized value
 /// is neither inside the window of the call that produced the text nor explained by the input.
-fn normalise(text: &str, w: &Window, constants: &std::collections::BTreeSet<u128>) -> Result<(String, usize), String> {
+///
+/// Returns (normalised text, values recognised as the embedded second, values that are both
+/// inside the window and explained by the input — kept verbatim, but they may be the second).
+fn normalise(text: &str, w: &Window, constants: &std::collections::BTreeSet<u128>) -> Result<(String, usize, usize), String> {
     let (skeleton, runs) = digit_runs(text);
     let (lo, hi) = (w.lo() as u128, w.hi() as u128);
     let mut out = String::with_capacity(text.len());
     let mut it = runs.iter();
     let mut embedded = 0;
+    let mut ambiguous = 0;
     for ch in skeleton.chars() {
         if ch == '\u{1}' {
             let run = it.next().unwrap();
             match clock_sized(run) {
-                Some(v) if constants.contains(&v) => out.push_str(run),
+                Some(v) if constants.contains(&v) => {
+                    if v >= lo && v <= hi {
+                        ambiguous += 1;
+                    }
+                    out.push_str(run)
+                }
                 Some(v) if v >= lo && v <= hi => {
                     embedded += 1;
                     out.push_str("<T>");
@@ -305,7 +314,7 @@ fn normalise(text: &str, w: &Window, constants: &std::collections::BTreeSet<u128
             out.push(ch);
         }
     }
-    Ok((out, embedded))
+    Ok((out, embedded, ambiguous))
 }
 
 fn first_diff(a: &str, b: &str) -> String {
@@ -379,13 +388,14 @@ pub fn judge(sc: &Scenario, obs: &[(usize, Obs)]) -> Judgement {
         table: &'a crate::hist::Table,
         time_tests: usize,
         resources: usize,
+        unknown_tests: bool,
         probe: u64,
     }
     let mut compiled: BTreeMap<usize, Vec<Option<C>>> = BTreeMap::new();
     let mut compile_ops: BTreeMap<usize, Vec<usize>> = BTreeMap::new();
     for (i, o) in obs {
         match o {
-            Obs::Compiled { subj, window, text, table, time_tests, resources, probe_order, .. } => {
+            Obs::Compiled { subj, window, text, table, time_tests, resources, unknown_tests, probe_order, .. } => {
                 compiled.entry(*subj).or_default().push(Some(C {
                     op: *i,
                     window,
@@ -393,6 +403,7 @@ pub fn judge(sc: &Scenario, obs: &[(usize, Obs)]) -> Judgement {
                     table,
                     time_tests: *time_tests,
                     resources: *resources,
+                    unknown_tests: *unknown_tests,
                     probe: *probe_order,
                 }));
                 compile_ops.entry(*subj).or_default().push(*i);
@@ -433,8 +444,8 @@ pub fn judge(sc: &Scenario, obs: &[(usize, Obs)]) -> Judgement {
                         j.violation = Some(fail("embedded-second-outside-call", format!("subject {subj}, op {}: {why}", c.op), vec![c.op]));
                         return j;
                     }
-                    Ok((norm, embedded)) => {
-                        if c.time_tests >= 1 && embedded == 0 {
+                    Ok((norm, embedded, ambiguous)) => {
+                        if !c.unknown_tests && c.time_tests >= 1 && embedded == 0 && ambiguous == 0 {
                             j.violation = Some(fail(
                                 "clock-not-embedded",
                                 format!(
@@ -445,7 +456,7 @@ pub fn judge(sc: &Scenario, obs: &[(usize, Obs)]) -> Judgement {
                             ));
                             return j;
                         }
-                        if c.time_tests == 0 && embedded > 0 {
+                        if !c.unknown_tests && c.time_tests == 0 && embedded > 0 {
                             j.violation = Some(fail(
                                 "clock-embedded-without-time-test",
                                 format!("subject {subj}, op {}: no time test in the tree but the program embeds the clock", c.op),
@@ -551,7 +562,7 @@ pub static PROP: crate::histcheck::HistProp = crate::histcheck::HistProp {
     rule: "One case = one seeded call history (10-60 operations: parse, compile [once or twice from one tree], render, io_map, unrelated compilations, clock shifts incl. backward steps and 2^33 s jumps, per-read clock scripts inside compile calls, caller-thread switches, hash-key epoch changes on fresh OS threads, logger level flips) over 1-4 generated expressions, executed against the real parse/compile/scheme/io_map in a fresh child process per block. Non-trivial = the history holds at least two successful compiles of one expression that has >= 2 hashed resources (distinct name/path patterns, printers) or >= 1 time test, and between them the clock window or the hash-key epoch/thread differs. distinct_nontrivial counts distinct shapes (hash of the operation-kind sequence with subjects, thread ids, shift signs and script activity) among the non-trivial histories.",
     assumptions: &[
         "std reaches the wall clock only through libc clock_gettime and hash keys only through libc getrandom (both interposed by the harness binary; verified live at the start of every check)",
-        "generated numeric constants are < 10^9 and the simulated clock is >= 10^9, so a digit run >= 10^9 in a program is clock-derived",
+        "a digit run >= 10^9 in a program is either a number written in the expression (alone or times a size unit) or clock-derived; the simulated clock stays within [10^9 + 7, 2^40 - 12345] so that its clamped values are not round constants",
         "pre-1970 clocks are outside the property's domain (time tests embed an epoch second)",
         "caller threads are real OS threads released one operation at a time; no two calls into the library overlap",
     ],
